@@ -44,7 +44,7 @@ MIX_TEXT = {
     "router": {0: "balanced six operations", 1: "notify-heavy", 2: "subscribe/unsubscribe/shrink-heavy", 3: "read-only operations",
                4: "balanced, int payload"},
 }
-RUN_TIMEOUT = {"quick": 45, "thorough": 150}
+RUN_TIMEOUT = {"quick": 20, "thorough": 90}
 
 PROPS = {
     "C15": {
@@ -155,57 +155,76 @@ def build_all():
 REPORT_RE = re.compile(r"={18}\n(WARNING: ThreadSanitizer: .*?)\n={18}", re.S)
 
 
-def tulz_frames(block):
-    """frames of the two access stacks that are tulz code (by symbol or by source path)"""
-    frames = []
-    section = None
+def in_repo(path):
+    rp = os.path.realpath(path)
+    root = os.path.realpath(lib.REPO) + os.sep
+    return rp[len(root):] if rp.startswith(root) else None
+
+
+ACCESS_RE = re.compile(r"(Write|Read|Previous write|Previous read|Atomic write|Atomic read|Previous atomic write|Previous atomic read) of size")
+FRAME_RE = re.compile(r"#\d+ (.*) (<null>|\S+?:\d+(?::\d+)?) \((\S+)\)$")
+
+
+def own_name(sym):
+    """the qualified name of the function itself: template arguments and parameter lists removed"""
+    out, depth = [], 0
+    for ch in sym:
+        if ch in "<(":
+            depth += 1
+        elif ch in ">)":
+            depth = max(0, depth - 1)
+        elif depth == 0:
+            out.append(ch)
+    return "".join(out).strip()
+
+
+def frame_label(sym, loc):
+    """label of a frame that belongs to tulz (source file inside the repository under test, or a function of namespace tulz
+    when the symbolizer has no line information); None for library / harness frames"""
+    if loc != "<null>":
+        path, ln = loc.split(":")[0], loc.split(":")[1]
+        rel = in_repo(path)
+        if rel:
+            return "%s:%s" % (rel, ln)
+        return None
+    name = own_name(sym)
+    m = re.search(r"(tulz::[\w:~]+)", name)
+    return m.group(1) if m else None
+
+
+def access_stacks(block):
+    """the two access stacks of a report, innermost frame first: tulz label or None per frame"""
+    stacks, cur = [], None
     for line in block.split("\n"):
         s = line.strip()
-        if re.match(r"(Write|Read|Previous write|Previous read|Atomic write|Atomic read|Previous atomic write|Previous atomic read) of size", s):
-            section = "access"
-            continue
-        if s.startswith(("Location is", "Thread T", "Mutex M", "SUMMARY")) or s == "":
-            if s.startswith(("Location is", "Thread T", "Mutex M", "SUMMARY")):
-                section = None
-            continue
-        if section == "access" and s.startswith("#"):
-            m = re.match(r"#\d+ (.*?) (\S+?):(\d+)(?::\d+)? \(", s)
-            if not m:
-                continue
-            sym, path, ln = m.group(1), m.group(2), m.group(3)
-            rp = os.path.realpath(path)
-            in_repo = rp.startswith(os.path.realpath(lib.REPO) + os.sep)
-            if "tulz::" in sym or in_repo:
-                rel = rp[len(os.path.realpath(lib.REPO)) + 1:] if in_repo else os.path.basename(path)
-                frames.append("%s:%s" % (rel, ln))
-    return frames
+        if ACCESS_RE.match(s):
+            cur = []
+            stacks.append(cur)
+        elif s.startswith(("Location is", "Thread T", "Mutex M", "SUMMARY")):
+            cur = None
+        elif cur is not None and s.startswith("#"):
+            m = FRAME_RE.match(s)
+            if m:
+                cur.append(frame_label(m.group(1), m.group(2)))
+    return stacks
 
 
 def parse_reports(stderr):
+    """-> list of {kind, tulz_frames (frames whose SOURCE FILE is in the repository under test), tops (innermost such frame of
+    each access: where tulz code performs or calls into the racing access), text}"""
     res = []
     for m in REPORT_RE.finditer(stderr):
         block = m.group(1)
         kind = block.split("\n", 1)[0]
         kind = re.sub(r"\s*\(pid=\d+\)", "", kind.replace("WARNING: ThreadSanitizer: ", ""))
-        frames = tulz_frames(block)
+        stacks = access_stacks(block)
+        frames = [f for st in stacks for f in st if f]
         tops = []
-        # first tulz frame of each of the two accesses
-        cur = None
-        for line in block.split("\n"):
-            s = line.strip()
-            if re.match(r"(Write|Read|Previous write|Previous read|Atomic write|Atomic read|Previous atomic write|Previous atomic read) of size", s):
-                cur = len(tops)
-                tops.append(None)
-            elif s.startswith(("Location is", "Thread T", "Mutex M")):
-                cur = None
-            elif cur is not None and s.startswith("#") and tops[cur] is None:
-                mm = re.match(r"#\d+ (.*?) (\S+?):(\d+)(?::\d+)? \(", s)
-                if mm:
-                    rp = os.path.realpath(mm.group(2))
-                    if "tulz::" in mm.group(1) or rp.startswith(os.path.realpath(lib.REPO) + os.sep):
-                        rel = rp[len(os.path.realpath(lib.REPO)) + 1:] if rp.startswith(os.path.realpath(lib.REPO) + os.sep) else os.path.basename(mm.group(2))
-                        tops[cur] = "%s:%s" % (rel, mm.group(3))
-        res.append({"kind": kind, "tulz_frames": frames, "tops": sorted(t for t in tops if t), "text": block})
+        for st in stacks:
+            top = next((f for f in st if f), None)
+            if top:
+                tops.append(top)
+        res.append({"kind": kind, "tulz_frames": frames, "tops": sorted(tops), "text": block})
     return res
 
 
@@ -291,6 +310,7 @@ def run_tie(prop, spec, tier, seed):
                 "(thousands of operations); distinct_nontrivial = distinct (program, thread count, operation mix) configurations that ran to completion; "
                 "%d of %d planned runs executed within the time budget" % (len(done), len(runs)))
     per_prog = {}
+    hung = []
     reports_total, filtered = 0, []
     seen_sig = set()
     for d in done:
@@ -303,10 +323,10 @@ def run_tie(prop, spec, tier, seed):
         pp["tsan_reports"] += len(reps)
         reports_total += len(reps)
         if d["hung"]:
+            # a hang (deadlock / lost wake-up, cf. C08 and finding F6) is not a data race: recorded, never a C15 violation;
+            # the TSan reports printed before the hang still count
             pp["hung"] += 1
-            res.failures.append(Failure("infra", "stress program %s %s did not finish within %d s (deadlock or lost wake-up: not a data race, see C08/F6)"
-                                        % (d["program"], " ".join(d["argv"]), timeout),
-                                        replay={"program": d["program"], "argv": d["argv"], "stderr_tail": d["stderr"][-1500:]}))
+            hung.append({"program": d["program"], "argv": d["argv"], "timeout_s": timeout})
         elif d["rc"] not in (0, 66):
             res.failures.append(Failure("infra", "stress program %s %s exited with status %s" % (d["program"], " ".join(d["argv"]), d["rc"]),
                                         replay={"program": d["program"], "argv": d["argv"], "stderr_tail": d["stderr"][-3000:], "stdout": d["stdout"]}))
@@ -331,6 +351,12 @@ def run_tie(prop, spec, tier, seed):
                 replay={"component": "drf", "program": d["program"], "source": src, "repo_sources": repo_srcs, "argv": d["argv"],
                         "build": "g++ %s -I$TULZ_REPO/include -Iharness %s %s -lpthread" % (" ".join(TSAN_FLAGS), src, " ".join("$TULZ_REPO/" + s for s in repo_srcs)),
                         "env": TSAN_ENV, "tsan_report": rep["text"][:6000], "accesses": rep["tops"]}))
+    for name, pp in per_prog.items():
+        if pp["runs"] and pp["hung"] == pp["runs"]:
+            res.failures.append(Failure("infra", "no run of stress program %s finished within %d s (deadlock or lost wake-up — not a data race, "
+                                                 "see C08/F6 — but leg S has no completed execution of this program)" % (name, timeout),
+                                        replay={"hung_runs": [h for h in hung if h["program"] == name]}))
+    res.extra["hung_runs_not_a_data_race"] = hung
     for pp in per_prog.values():
         pp["thread_counts"] = sorted(pp["thread_counts"])
         pp["mixes"] = sorted(pp["mixes"])
@@ -365,7 +391,7 @@ def replay(prop, spec, path):
     want = set(rp.get("accesses", []))
     threads, iters, seed, mix = [int(x) for x in rp["argv"]]
     for attempt in range(1, 9):
-        d = run_one(b, name, threads, iters, seed, mix, 150)
+        d = run_one(b, name, threads, iters, seed, mix, 25)
         reps = [r for r in parse_reports(d["stderr"]) if "data race" in r["kind"] and r["tulz_frames"]]
         same = [r for r in reps if set(r["tops"]) == want] or reps
         if same:
